@@ -140,6 +140,17 @@ CHECKS["C11"] = dict(
     note=CFG_NOTE + " The validator catalogue is implemented twice (Python/Lean). Items of configuration lists are checked at load/insert only.",
     technique="Lean 4 proof (characterisation of the validation pass; induction over tree entries) + model/implementation correspondence",
     design="6 C11")
+CHECKS["C14"] = dict(
+    text="Lean 4 theorems: the variable a field is bound to, as a function of the env settings on the way down (inheritance below a string "
+         "prefix = upper-cased underscore-joined keys, explicit names verbatim, env=False opts out, absence/opt-out propagate, nested "
+         "named/True prefixes restart), with the documented examples kernel-evaluated; the variable wins at construction, an invalid one "
+         "fails construction with a ValidationError naming the field, loads skip the key while it is set, unset/empty/unbound = no "
+         "binding (exact characterisation). Correspondence: the whole settings matrix on real schemas (names) and env states x kinds "
+         "(precedence) against the model.",
+    note=CFG_NOTE + " Schemas are built top-down as the property states. Known finding F10: typed list/dict fields ignore their variable "
+         "at construction while loads skip them (proved about the model: env_ignored_by_lists); the challenge-with-default case was repaired.",
+    technique="Lean 4 proof (closed-form naming by induction over the schema chain; case analysis of __setdefault__/load_tree) + model/implementation correspondence",
+    design="6 C14")
 PENDING = ["C01", "C02", "C03", "C04", "C05", "C06", "C07", "C08", "C09", "C10", "C11", "C12", "C13", "C14", "C15", "C16",
            "C17", "C19", "C20"]
 
